@@ -383,11 +383,15 @@ def repo_modules():
         pass
     mods = {}
     for root, dirs, files in os.walk(REPO):
-        dirs[:] = [d for d in dirs if d not in (".git", "node_modules", "testdata")]
+        dirs[:] = [d for d in dirs if d not in (".git", "node_modules")]
         if "go.mod" in files:
             for line in open(os.path.join(root, "go.mod")):
                 if line.startswith("module "):
-                    mods[line.split()[1]] = root
+                    m = line.split()[1]
+                    # fixtures under .../testdata/ are not collector modules -- except pdata/testdata, which is one
+                    if "/testdata/" in root + "/" and m != "go.opentelemetry.io/collector/pdata/testdata":
+                        break
+                    mods[m] = root
                     break
     _MODS = mods
     return mods
